@@ -44,6 +44,10 @@ def cases(tier, seed):
                             if tier == "quick" and bag and (rs + ts) % 2:
                                 continue
                             out.append(dict(kind="train", ubm=u, tset=ts, rs=rs, upd=upd, floor=fl, bag=bag, K=K_IT[tier], seed=seed))
+                            if fl == 1e-10 and not bag and len(c11.UBMS[u]["mu"]) >= 2 and rs < 3:
+                                Cn = len(c11.UBMS[u]["mu"])
+                                for emp in ([[0]] if Cn == 2 else [[0], [1], [0, 2]]):
+                                    out.append(dict(kind="train", ubm=u, tset=ts, rs=rs, upd=upd, floor=fl, bag=False, K=K_IT[tier], seed=seed, empty=emp))
                             if fl == 1e-10 and not bag and (rs + ts) % 2 == 0:
                                 # a component with a small fractional occupation and a larger i-vector dimension
                                 out.append(dict(kind="train", ubm=u, tset=ts, rs=rs, upd=upd, floor=fl, bag=False, K=K_IT[tier], seed=seed, dim_t=6, tiny=True))
@@ -69,6 +73,13 @@ def _stat_objects(ubm, s, o):
     bal.sum_px = 2.0 * np.asarray(ubm.means, float)
     bal.sum_pxx = 2.0 * (np.asarray(ubm.means, float) ** 2 + 0.5 * np.asarray(ubm.variances, float))
     out.append(bal)
+    # element-wise equal to recordings 1 and 2, but the arrays are held column-major / as a transposed view
+    f1 = copy.deepcopy(out[1])
+    f1.sum_px, f1.sum_pxx = np.asfortranarray(np.asarray(f1.sum_px, float)), np.asfortranarray(np.asarray(f1.sum_pxx, float))
+    out.append(f1)
+    f2 = copy.deepcopy(out[2])
+    f2.sum_px, f2.sum_pxx = np.ascontiguousarray(np.asarray(f2.sum_px, float).T).T, np.ascontiguousarray(np.asarray(f2.sum_pxx, float).T).T
+    out.append(f2)
     return out
 
 
@@ -173,6 +184,13 @@ def _train_case(case, c, s, o):
     if case["floor"] == 0.0:
         stats = copy.deepcopy(stats)
         stats[0].sum_pxx = np.asarray(stats[0].sum_pxx, float) * 0.25  # second moments not tied to the first ones: raw covariance estimates can be negative
+    if case.get("empty") is not None:
+        # components that no recording of the training set ever visits (not only the last one)
+        stats = copy.deepcopy(stats)
+        for st in stats:
+            for e in case["empty"]:
+                if e < C - 0:
+                    st.n[e], st.sum_px[e], st.sum_pxx[e] = 0.0, 0.0, 0.0
     if case.get("tiny"):
         stats = copy.deepcopy(stats)
         for st in stats:
@@ -184,7 +202,9 @@ def _train_case(case, c, s, o):
 
     def fit(k):
         np.random.seed(case["rs"])
-        m = IVectorMachine(ubm, dim_t=t, max_iterations=k, update_sigma=case["upd"], variance_floor=floor)
+        # the floor as a Python float, a NumPy scalar or a 0-d array (a value read from a file / configuration)
+        fl_given = floor if case["rs"] % 3 == 0 else (np.float64(floor) if case["rs"] % 3 == 1 else np.asarray(floor, dtype=float))
+        m = IVectorMachine(ubm, dim_t=t, max_iterations=k, update_sigma=case["upd"], variance_floor=fl_given)
         # bags: 2 partitions, or (every other case) one partition per statistics object of a 13-object set
         X = db.from_sequence(copy.deepcopy(stats), npartitions=len(stats) if len(stats) > 10 else 2) if case["bag"] else copy.deepcopy(stats)
         if case["bag"] and case["rs"] == 1:
@@ -225,7 +245,7 @@ def _train_case(case, c, s, o):
         L.append(Lk)
         traj.append((Tk, sk))
         c.states += 1
-    return rose and not any_floor, "t|%d|%d|%d|%s|%s|%s|%s" % (case["ubm"], ts, case["rs"], case["upd"], case["floor"], case["bag"], case.get("dim_t"))
+    return rose and not any_floor, "t|%d|%d|%d|%s|%s|%s|%s" % (case["ubm"], ts, case["rs"], case["upd"], case["floor"], case["bag"], (case.get("dim_t"), case.get("empty")))
 
 
 def run_case(case):
